@@ -321,8 +321,10 @@ PREDICATES = {"consistent": p_consistent, "hardened_refused": p_hardened_refused
               "roundtrip": p_roundtrip, "vector": p_vector, "blind": p_blind, "case_insensitive": p_case_insensitive}
 
 
-def eval_pred(kc):
-    kind, case = kc
+def eval_pred(kind, case=None):
+    """eval_pred(kind, case) or eval_pred((kind, case)) (the latter for pool.map)"""
+    if case is None:
+        kind, case = kind
     try:
         return PREDICATES[kind](case)
     except Exception as e:
@@ -506,19 +508,31 @@ def run(ctx):
     t1 = time.time()
     impls = pmap(impl_line, reqs, workers=ctx.workers, chunksize=2)
     t2 = time.time()
+    seen = {}
     for (kind, line), model, impl in zip(lines, answers, impls):
         t = line.split(" ")
         finding = None
-        if t[0] == "pub_trav" and uns(t[2])[:1] == "M":
+        # input predicate of F08a: a public traverse (directly or inside blind_xpub) of a path spelled with `M`
+        if (t[0] == "pub_trav" and uns(t[2])[:1] == "M") or (t[0] == "blind" and uns(t[3])[:1] == "M"):
             finding = "F08a"
-        if rec.compare(kind, {"line": line}, impl, model, determined=True, key=line[:300], finding=finding):
+        seen[kind] = seen.get(kind, 0) + 1
+        # the first few requests of each kind carry the key "line": ./check re-executes those under line monitoring
+        case = {"line": line} if seen[kind] <= 4 else {"request": line}
+        if rec.compare(kind, case, impl, model, determined=True, key=line[:300], finding=finding):
             rec.sample(kind, {"request": line[:200], "answer": model[:200]})
         if impl == REJECT:
             rec.count(kind + ":reject")
     results = pmap(eval_pred, preds, workers=ctx.workers, chunksize=1)
     rec.note(f"timing: model {t1 - t0:.1f}s, implementation {t2 - t1:.1f}s, predicates {time.time() - t2:.1f}s")
+    covn = {}
     for (kind, case), (ok, got, want) in zip(preds, results):
-        finding = "F08a" if kind == "case_insensitive" and case["path"][:1] == "M" else None
+        covn[kind] = covn.get(kind, 0) + 1
+        if covn[kind] <= 3:
+            rec.cov_pred(kind, case)   # small sample re-executed under line monitoring by ./check
+        finding = None
+        if (kind == "case_insensitive" and case["path"][:1] == "M") or \
+                (kind == "compose" and case.get("public") and case["p"][:1] == "M"):
+            finding = "F08a"
         if ok:
             rec.ok(kind, repr(case)[:300])
             rec.sample(kind, case, limit=1)
@@ -527,7 +541,7 @@ def run(ctx):
 
     # ---- finding F08a: replayed on every run (HDPublicKey.traverse refused an upper-case M)
     w = {"xprv": keys[0][0], "path": "M/0/1", "pred": "case_insensitive"}
-    ok, got, want = eval_pred(("case_insensitive", w))
+    ok, got, want = eval_pred("case_insensitive", w)
     flagged = drv.one(f"pub_trav_f08a {xs(keys[0][1])} {xs('M/0/1')}")
     if flagged != REJECT:
         raise MachineryError("the flagged model of F08a does not reproduce the finding")
@@ -543,7 +557,8 @@ def _reserialise(a):
 def replay(ctx, v):
     """re-execute one recorded violation exactly; True if it still violates"""
     case = v["case"]
-    if "line" in case:
-        return impl_line(case["line"]) != ctx.driver("drv_c08").one(model_line(case["line"]))
-    ok, _, _ = eval_pred((case["pred"], case))
+    line = case.get("line") or case.get("request")
+    if line is not None:
+        return impl_line(line) != ctx.driver("drv_c08").one(model_line(line))
+    ok, _, _ = eval_pred(case["pred"], case)
     return not ok
